@@ -445,6 +445,42 @@ def tt_options_section(ctx, rng):
                 break
 
 
+def direction_section(ctx, rng):
+    """reverseDirection=False: the TrueType outlines keep the SOURCE direction -- for glyphs made of lines and quadratics point
+    for point (rounded, start point aside), and for every glyph the default build is the exact reversal of this one"""
+    import ufo2ft
+    from fontTools.ttLib import TTFont
+    for i in range(ctx.budget(6, 30)):
+        lib = ["ufoLib2", "defcon"][i % 2]
+        desc = gen_component_font(rng, n=rng.randint(3, 5), kinds=("line", "qcurve", "curve"), classes=["identity"], max_depth=0)
+        for g in desc["glyphs"]:
+            g["components"] = []
+        case = {"font": jsonable(desc), "lib": lib, "options": {"reverseDirection": False}, "level": "reverseDirection=False"}
+        ctx.count(); ctx.klass("reverseDirection=False"); ctx.nontriv(("dir", i, ctx.scale))
+        try:
+            out = []
+            for kw in ({"reverseDirection": False}, {}):
+                tt = ufo2ft.compileTTF(build_font(desc, lib), useProductionNames=False, **kw)
+                buf = io.BytesIO(); tt.save(buf); buf.seek(0); out.append(TTFont(buf))
+        except Exception as e:
+            ctx.spec_failure(case, "compileTTF raised %s: %s\n%s" % (type(e).__name__, e, traceback.format_exc()[-1000:]))
+            continue
+        kept, dflt = out
+        rot = lambda c: min(tuple(c[k:] + c[:k]) for k in range(len(c))) if c else ()
+        for g in desc["glyphs"]:
+            a, b = read_glyf(kept, g["name"]), read_glyf(dflt, g["name"])
+            # (reversing a TrueType contour: the point list reversed; flags travel with their points)
+            if [rot(list(c)) for c in a["contours"]] != [rot(list(reversed(c))) for c in b["contours"]]:
+                ctx.spec_failure(dict(case, glyph=g["name"]), "%r: the default build is not the reversal of the reverseDirection=False build" % g["name"])
+                break
+            if all(t != "curve" for c in g["contours"] for _, _, t in c) and all(any(t != "off" for _, _, t in c) for c in g["contours"]):
+                src = [[(geom.ot_round(x), geom.ot_round(y), t != "off") for x, y, t in c] for c in g["contours"] if len(c) > 0]
+                if [rot(c) for c in src] != [rot(list(c)) for c in a["contours"]]:
+                    ctx.spec_failure(dict(case, glyph=g["name"]), "%r (lines / quadratics only) is not reproduced point for point in the source direction with "
+                                     "reverseDirection=False: %r vs source %r" % (g["name"], str(a["contours"])[:200], str(src)[:200]))
+                    break
+
+
 def notdef_section(ctx, rng):
     """a caller-supplied .notdef (the notdefGlyph option; the UFO has none of its own) is an outline like any other: in the
     TrueType font it must come out exactly as the same outline does when compiled as an ordinary glyph of that font
@@ -488,6 +524,7 @@ def notdef_section(ctx, rng):
 def explore(ctx):
     notdef_section(ctx, ctx.subrng("notdef"))
     tt_options_section(ctx, ctx.subrng("tt-options"))
+    direction_section(ctx, ctx.subrng("direction"))
     import ufo2ft
     from fontTools.ttLib import TTFont
     from ufo2ft.preProcessor import TTFPreProcessor
